@@ -246,12 +246,15 @@ func BuildTypeCtxByIndex(typeType *parser.TypeTypeContext, typeCtx *parser.Class
 }
 
 func (s *JavaFullListener) EnterLocalVariableDeclaration(ctx *parser.LocalVariableDeclarationContext) {
-	typ := ctx.GetChild(0).(antlr.ParseTree).GetText()
-	if ctx.GetChild(1) != nil {
-		if ctx.GetChild(1).GetChild(0) != nil && ctx.GetChild(1).GetChild(0).GetChild(0) != nil {
-			variableName := ctx.GetChild(1).GetChild(0).GetChild(0).(antlr.ParseTree).GetText()
-			localVars[variableName] = typ
-		}
+	// modifiers (final, annotations) may precede the type: take the type and the declarators by their rule, not by position
+	if ctx.TypeType() == nil || ctx.VariableDeclarators() == nil {
+		return
+	}
+	typ := ctx.TypeType().GetText()
+	declarators := ctx.VariableDeclarators()
+	if declarators.GetChild(0) != nil && declarators.GetChild(0).GetChild(0) != nil {
+		variableName := declarators.GetChild(0).GetChild(0).(antlr.ParseTree).GetText()
+		localVars[variableName] = typ
 	}
 }
 
